@@ -76,6 +76,17 @@ func (e *explorer) runDef(fam string, def m.Def, inputs []string) {
 	// C16: round trips
 	var rt []*lexer.StatefulDefinition
 	if e.prop == "C16" {
+		// what a caller does with the map returned by Rules() must not reach the definition
+		if rr := d.Rules(); rr != nil {
+			for st, rs := range rr {
+				for i := range rs {
+					rs[i].Pattern = "CLOBBERED"
+					rs[i].Name = "Clobbered"
+				}
+				rr[st] = append(rs, lexer.Rule{Name: "Extra", Pattern: "extra"})
+			}
+			rr["ExtraState"] = []lexer.Rule{{Name: "X", Pattern: "x"}}
+		}
 		for i, src := range []func() ([]byte, error){
 			func() ([]byte, error) { return json.Marshal(d) },
 			func() ([]byte, error) { return json.Marshal(def.ToRules()) },
